@@ -1463,11 +1463,14 @@ func (e *compiledFunctionLiteral) compile() (prg *Program, name unistring.String
 				}
 				if firstForwardRef == -1 {
 					s.bindings[i].emitGetAt(markGet)
+					s.bindings[i].emitInitP()
+					e.c.p.code[mark] = jdefP(len(e.c.p.code) - mark)
 				} else {
+					// the binding is not initialised by enterFunc1: a supplied value must be stored, too
 					e.c.p.code[markGet] = loadStackLex(-i - 1)
+					e.c.p.code[mark] = jdef(len(e.c.p.code) - mark)
+					s.bindings[i].emitInitP()
 				}
-				s.bindings[i].emitInitP()
-				e.c.p.code[mark] = jdefP(len(e.c.p.code) - mark)
 			} else {
 				if firstForwardRef == -1 && s.bindings[i].useCount() > 0 {
 					firstForwardRef = i
